@@ -158,7 +158,8 @@ theorem lt_countP_iff {p : γ → Bool} (l : List γ) (h : DownClosed p l) (k : 
         | zero => simp [ha'] at hp
         | succ k =>
           simp only [List.getElem_cons_succ] at hp
-          have := (List.pairwise_cons.mp h).1 t[k] (List.getElem_mem _) hp
+          have hk' : k < t.length := by simpa using hk
+          have := (List.pairwise_cons.mp h).1 (t[k]'hk') (List.getElem_mem _) hp
           simp [ha'] at this
 
 theorem take_countP {p : γ → Bool} (l : List γ) (h : DownClosed p l) :
